@@ -91,7 +91,9 @@ Definition resolve_tag (o : oracle) (r : rule) (raw : string) : option (list str
     else match o_dyn o r e with
          | DScalar truthy s =>
              if truthy then (if is_empty (strip s) then Some [] else Some [low_strip s]) else Some []
-         | DList items => Some (map (fun it => low_strip (snd it)) (filter (fun it => fst it) items))
+         | DList items =>        (* one tag per truthy item whose text is not blank *)
+             Some (map (fun it => low_strip (snd it))
+                       (filter (fun it => (fst it && negb (is_empty (strip (snd it))))%bool) items))
          | DErr => Some []
          | DCrash => None
          end
